@@ -38,12 +38,13 @@ def rand_opts(rng):
     if stop == 'sd':
         o['sd_thresh'] = float(gens.pick(rng, [1e-3, .01, .05, .1, .3, 1.0, float(10 ** rng.uniform(-3, 0))]))
     elif stop == 'rilling':
-        o['rilling_thresh'] = gens.pick(rng, gens.RILLING + [(0.02, 0.2, 0.01), (0.3, 3.0, 0.3)])
+        # (the documentation puts no order on the two thresholds: sd1 may exceed sd2)
+        o['rilling_thresh'] = gens.pick(rng, gens.RILLING + [(0.02, 0.2, 0.01), (0.3, 3.0, 0.3), (0.5, 0.05, 0.05), (0.2, 0.1, 0.1), (1.0, 0.3, 0.02)])
     else:
         o['max_iters'] = int(gens.pick(rng, [1, 2, 3, 5, 7, 10, 20]))
     r = rng.random()
     if r < .15:
-        o['energy_thresh'] = float(gens.pick(rng, [10, 50]))
+        o['energy_thresh'] = float(gens.pick(rng, [5, 10, 20, 50]))
     if rng.random() < .15:
         # the same numbers as numpy scalars / arrays (what a caller gets from a config file or another computation)
         o['max_iters'] = np.int64(o['max_iters'])
@@ -197,6 +198,8 @@ def check_case(ctx, case):
                 ctx.count('energy_judged')
                 if db > en:
                     ctx.count('energy_fired')
+                    if m_out == 'noext':
+                        ctx.count('energy_fired_on_extrema_runout')
         if not judged_energy:
             ctx.count('energy_unjudged')
             return cls
@@ -233,6 +236,10 @@ def layer_cases(ctx, rng):
             continue
         c = {'kind': 'gni', 'family': kind + '+layer', 'x': r['X'], 'opts': dict(io), 'envelope_opts': eo, 'extrema_opts': xo}
         c['opts'].setdefault('max_iters', 1000)
+        if rng.random() < .5:
+            # later-layer inputs are where extrema run out mid-extraction: exercise the energy rule on that exit too
+            c['opts']['energy_thresh'] = float(gens.pick(rng, [3, 5, 10, 20]))
+            c['opts']['env_step_size'] = float(gens.pick(rng, [1, .5, .2]))
         out.append((r.get('path'), c))
     return out
 
